@@ -64,11 +64,17 @@ def clear_all(K):
 
 
 def apply_history(K, h):
+    """-> the dictionaries handed to register_defaults, each with a copy of what it held when it was handed over
+    (the registry must not keep working on the caller's own dictionary)"""
+    given = []
     for e in h:
         if e['op'] == 'clear':
             K[e['c']].clear_registered_defaults()
         else:
-            K[e['c']].register_defaults({e['k']: VALUE[e['v']]})
+            d = {e['k']: VALUE[e['v']]}
+            given.append((d, dict(d)))
+            K[e['c']].register_defaults(d)
+    return given
 
 
 def construct(K, c, E):
@@ -104,10 +110,12 @@ def replay_states(states, extra):
         h = st['h']
         clear_all(K)
         try:
-            apply_history(K, h)
+            given = apply_history(K, h)
             got_reg = registry(K)
             want_reg = {c: as_dict(st['reg'][c]) for c in CLASSES}
             probs = []
+            if any(d != keep for d, keep in given):
+                probs.append({'clause': 'caller-dictionary-changed', 'documented': [k for _, k in given], 'observed': [d for d, _ in given]})
             if got_reg != want_reg:
                 probs.append({'clause': 'registry', 'documented': want_reg, 'observed': got_reg})
             for o in st['obs']:
